@@ -163,24 +163,26 @@ fn w_strategy() -> impl Strategy<Value = W> {
     ]
 }
 
-fn tx_strategy(shards: u8) -> impl Strategy<Value = TxSpec> {
+fn tx_strategy() -> impl Strategy<Value = TxSpec> {
+    // three part slots; the interpreter maps a slot to a shard by `% shards` and ignores a second
+    // part for the same shard, so the strategy does not depend on the shard count (no flat_map)
     prop::collection::vec(
         (prop::bool::weighted(0.8), prop::collection::vec(w_strategy(), 1..=3), prop_oneof![3 => Just(0u8), 2 => 1u8..4]),
-        shards as usize,
+        3,
     )
-        .prop_map(|v| {
-            let mut parts: Vec<Part> = v
-                .iter()
-                .enumerate()
-                .filter(|(_, (inc, _, _))| *inc)
-                .map(|(s, (_, ws, emb))| Part { shard: s as u8, ws: ws.clone(), emb: *emb })
-                .collect();
-            if parts.is_empty() {
-                let (_, ws, emb) = &v[0];
-                parts.push(Part { shard: 0, ws: ws.clone(), emb: *emb });
-            }
-            TxSpec { parts }
-        })
+    .prop_map(|v| {
+        let mut parts: Vec<Part> = v
+            .iter()
+            .enumerate()
+            .filter(|(_, (inc, _, _))| *inc)
+            .map(|(s, (_, ws, emb))| Part { shard: s as u8, ws: ws.clone(), emb: *emb })
+            .collect();
+        if parts.is_empty() {
+            let (_, ws, emb) = &v[0];
+            parts.push(Part { shard: 0, ws: ws.clone(), emb: *emb });
+        }
+        TxSpec { parts }
+    })
 }
 
 fn index_strategy() -> impl Strategy<Value = u16> {
@@ -188,9 +190,9 @@ fn index_strategy() -> impl Strategy<Value = u16> {
     prop_oneof![1 => Just(0u16), 1 => any::<u16>()]
 }
 
-fn op_strategy(shards: u8) -> impl Strategy<Value = Op> {
+fn op_strategy() -> impl Strategy<Value = Op> {
     prop_oneof![
-        2 => tx_strategy(shards).prop_map(Op::Begin),
+        2 => tx_strategy().prop_map(Op::Begin),
         20 => index_strategy().prop_map(Op::Deliver),
         2 => any::<u16>().prop_map(Op::Drop),
         3 => any::<u16>().prop_map(Op::Duplicate),
@@ -204,17 +206,20 @@ fn op_strategy(shards: u8) -> impl Strategy<Value = Op> {
 
 pub fn case_strategy(t: Tier) -> impl Strategy<Value = Case> {
     let max_ops = t.pick(60usize, 90usize);
-    (prop_oneof![1 => Just(2u8), 1 => Just(3u8)], prop::bool::weighted(0.2)).prop_flat_map(move |(shards, tiny)| {
-        (
-            prop::collection::vec((0..shards, put_key_strategy(), 1u8..4), 0..6),
-            tx_strategy(shards),
-            prop::collection::vec(op_strategy(shards), 0..max_ops),
-        )
-            .prop_map(move |(seeds, first, rest)| {
-                let mut ops = Vec::with_capacity(rest.len() + 1);
+    (
+        prop_oneof![1 => Just(2u8), 1 => Just(3u8)],
+        prop::bool::weighted(0.2),
+        prop::collection::vec((0u8..3, put_key_strategy(), 1u8..4), 0..6),
+        // nearly every history starts with a transaction (an Option so that shrinking can drop it)
+        prop::option::weighted(0.97, tx_strategy()),
+        prop::collection::vec(op_strategy(), 0..max_ops),
+    )
+        .prop_map(|(shards, tiny, seeds, first, rest)| {
+            let mut ops = Vec::with_capacity(rest.len() + 1);
+            if let Some(first) = first {
                 ops.push(Op::Begin(first));
-                ops.extend(rest);
-                Case { shards, tiny, seeds, ops }
-            })
-    })
+            }
+            ops.extend(rest);
+            Case { shards, tiny, seeds, ops }
+        })
 }
